@@ -8,13 +8,14 @@ structure WEv where
   file : Nat
   valid : Bool
   removed : Bool       -- the file is removed (token 2); 0 = a version that does not parse, 1 = a valid version
+  reload : Bool        -- token 3: the configuration is reloaded, namespace target unchanged (file, names ignored)
   names : List String
 
 def pWEv : P WEv := do
   let f ← nat
   let v ← nat
   let ns ← counted str
-  if v > 2 then failure else pure ⟨f, v == 1, v == 2, ns⟩
+  if v > 3 then failure else pure ⟨f, v == 1, v == 2, v == 3, ns⟩
 
 def insertSorted (x : String) : List String → List String
   | [] => [x]
@@ -40,21 +41,23 @@ def handleWatch (toks : List String) : String :=
         match evs[c]? with
         | some e => if e.valid then some e.names else none
         | none => none
-      let all : List (W.Ev × Nat) := evs.zipIdx.map fun (e, i) =>
-        (if e.removed then .remove s!"f{e.file}" else .change s!"f{e.file}" i, e.file)
+      let all : List (W.CEv × Nat) := evs.zipIdx.map fun (e, i) =>
+        (if e.reload then .reload true
+         else if e.removed then .file (.remove s!"f{e.file}") else .file (.change s!"f{e.file}" i), e.file)
       -- versions written before the watcher started: only the last one per file is ever
-      -- seen, and the initial load walks the directory in file-name order
+      -- seen, and the initial load walks the directory in file-name order (reload events never
+      -- occur among them)
       let pre := all.take npre
       let files := sortNats ((pre.map (·.2)).eraseDups)
-      let preEvents : List W.Ev := files.filterMap fun f => ((pre.filter (·.2 == f)).getLast?).map (·.1)
-      let events : List W.Ev := preEvents ++ (all.drop npre).map (·.1)
+      let preEvents : List W.CEv := files.filterMap fun f => ((pre.filter (·.2 == f)).getLast?).map (·.1)
+      let events : List W.CEv := preEvents ++ (all.drop npre).map (·.1)
       -- the initial load is one step as far as an observer is concerned only for the
       -- legacy watcher's per-file map; both watchers publish after each file, so every
       -- prefix is a possible observation
       let prefixes := (List.range (events.length + 1)).map fun k => events.take k
       let states : List String :=
-        if kind == "o" then prefixes.map fun es => stateStr (W.oall (W.orun parse es))
-        else prefixes.map fun es => stateStr (W.lall (W.lrun parse es))
+        if kind == "o" then prefixes.map fun es => stateStr (W.oall (W.orunC parse es))
+        else prefixes.map fun es => stateStr (W.lall (W.lrunC parse es))
       let final := states.getLast?.getD ""
       s!"final={final}\tstates={"|".intercalate states}"
     | _, _ => "bad-op"
